@@ -24,13 +24,7 @@ def translate():
 
 
 def changed():
-    try:
-        cur, ref = drvgen.functions(open(OUT).read()), drvgen.functions(open(REF).read())
-    except FileNotFoundError:
-        return []
-    ch = [n for n, (f, t) in cur.items() if n not in ref or ref[n][1] != t]
-    ch += [n for n in ref if n not in cur]
-    return sorted(set(ch))
+    return sorted(set(n for (n, f) in drvgen.changed_vs(OUT, REF)))
 
 
 def src_obligations(res):
